@@ -300,7 +300,7 @@ Proof.
   - reflexivity.
   - destruct b; reflexivity.
   - cbn [lit_of]. apply int_literal_l. cbn [val_ok] in Hok.
-    unfold val_class, is_int_min in Hc. cbn [float_shown_as_int] in Hc.
+    unfold val_class, is_int_min in Hc.
     destruct (z =? i64_min) eqn:E; [discriminate|]. lia.
   - apply text_literal_l.
   - apply blob_literal_l. exact Hok.
@@ -310,15 +310,10 @@ Lemma literal_roundtrip_refuted_l :
   exists v, val_ok v = true /\ is_float v = false /\ val_class v = 6 /\ read_literal (render v) <> lit_of v.
 Proof. exists (VInt i64_min). repeat split. vm_compute. discriminate. Qed.
 
-(* a float that Rust prints without fraction or exponent comes back as an integer literal *)
-Lemma float_as_int_refuted_l :
-  let v := VFloat 4607182418800017408 [49] in          (* 1.0, printed `1` *)
-  val_class v = 5 /\ read_literal (render v) = LInt 1.
-Proof. vm_compute. split; reflexivity. Qed.
-
-(* substitution can change the token structure: `a-?` with -5 becomes `a--5`, a comment *)
-Lemma minus_merge_refuted_l :
-  subst [97; 45; 63] [VInt (-5)] = SOk [97; 45; 45; 53] /\
-  subst_stable [97; 45; 63] [VInt (-5)] = false /\
-  lex [97; 45; 45; 53] = Some [(KId, [97]); (KCom, [45; 45; 53])].
+(* a negative number after a minus sign is kept apart from it (before e081981 `a-?` with -5 became
+   `a--5`, a comment) *)
+Lemma minus_kept_apart_l :
+  subst [97; 45; 63] [VInt (-5)] = SOk [97; 45; 32; 45; 53] /\
+  subst_stable [97; 45; 63] [VInt (-5)] = true /\
+  lex [97; 45; 32; 45; 53] = Some [(KId, [97]); (KMinus, [45]); (KWs, [32]); (KMinus, [45]); (KInt, [53])].
 Proof. vm_compute. repeat split; reflexivity. Qed.
